@@ -8,7 +8,7 @@ From V.c15 Require Import C15Model C15HevcModel.
 Require Import ExtrOcamlBasic.
 Separate Extraction
   ssp scheme enc_sample saiz senc
-  avc_is_video hevc_is_video protect_ranges audio_protect_ranges append_protect_range
+  avc_is_video hevc_is_video protect_ranges_r audio_protect_ranges append_protect_range
   increment_iv increment_iv_inplace nr_enc_blocks pad_iv
   crypt_sample_cenc crypt_sample_cbcs cbcs_crypt
   encrypt_samples_cenc encrypt_samples_cbcs
